@@ -19,7 +19,10 @@ merged into one report under the first name.
      `report_faithful_to_owner`. Underneath: `fromRecords_ips_iff`, `fromRecords_ports_iff`,
      `fromRecords_attr_keys_iff`, `fromRecords_attrs_sound`, `fromRecords_attr_last_wins` and the
      `HashMap::extend` lemmas (`lookup_attrsExtend`, `mem_keys_attrsExtend`, …)
-  4. the name: `reportOf_name`, `reportOf_name_label`, `reportOf_of_subdomain`
+  4. the name: `reportOf_name`, `reportOf_name_label`, `reportOf_of_subdomain` — about the BYTES
+     `Name.display pre`; Rust's `instance_name` is the `String` `pre.to_string()` (each label
+     through `from_utf8_lossy`), which has these bytes iff every label is valid UTF-8:
+     `reportOf_name_string`, `reportOf_name_label_utf8` in `Props/C15Audit.lean`
   5. two instances in one response, any interleaving: `reports_two_instances`,
      `reports_interleaving`, `reports_two_announced`, `two_instances_discovered_faithfully`
   6. the old code: `reportsMerged_length`, `reportsMerged_merges`,
@@ -703,7 +706,10 @@ theorem fromRecords_attrs_keys_nodup {service : Name} {rs : List RR} {i : Instan
   obtain ⟨n, _, _, _, _, h4⟩ := fromRecords_eq_some h
   rw [h4]; exact nodup_keys_foldl_recStep rs emptyInst (by simp [emptyInst, Attrs.keys])
 
-/-- **attribute values: the last TXT record with the key wins** -/
+/-- **attribute values: the last TXT record with the key wins** — last in the order in which the
+records are passed. For a report that is the order of the response (a `Vec`); for
+`get_known_services` it is the iteration order of a `HashMap` bucket, which the model fixes as
+insertion order and Rust does not specify (`Props/C15Audit.lean`, section 1). -/
 theorem fromRecords_attr_last_wins {service : Name} {pre post : List RR} {r : RR} {i : Instance}
     (h : fromRecords service (pre ++ r :: post) = some i) {new : Attrs} {k : String}
     {v : Option String} (ht : txtOf r = some new) (hkv : (k, v) ∈ new)
@@ -799,8 +805,10 @@ example : reportOf [[9]] [mkRR [[1], [9]] 0 (.flat 1 [.int 1]), mkRR [[2], [9]] 
     = reportOf [[9]] [mkRR [[3], [9]] 0 (.flat 1 [.int 3]), mkRR [[1], [9]] 0 (.flat 1 [.int 1])] [[1], [9]] :=
   reportOf_local _ (by decide)
 
-/-- **4. The instance name of a report** is the text of the labels the owner name has in front of
-the service name (`owner.without(service).to_string()`); the owner is a strict subdomain. -/
+/-- **4. The instance name of a report** is, in the model, the BYTES of the labels the owner name
+has in front of the service name joined by dots; the owner is a strict subdomain. Rust reports
+`owner.without(service).to_string()`, a `String` made with `from_utf8_lossy` per label: it has
+these bytes iff every label is valid UTF-8 (`reportOf_name_string` in `Props/C15Audit.lean`). -/
 theorem reportOf_name {service : Name} {rs : List RR} {o : Name} {i : Instance}
     (h : reportOf service rs o = some i) :
     ∃ pre, o.without service = some pre ∧ o = pre ++ service ∧ pre ≠ [] ∧
@@ -818,7 +826,10 @@ theorem reportOf_name {service : Name} {rs : List RR} {o : Name} {i : Instance}
     obtain ⟨h1, h2⟩ := without_some_append o service pre hw
     exact ⟨pre, rfl, h1.symm, h2, by rw [← h]⟩
 
-/-- for the usual one-label instance names: the report of `inst.service` is named `inst` -/
+/-- for the usual one-label instance names: the model's report of `inst.service` is named by the
+bytes `inst`, for arbitrary label bytes. Rust's `instance_name` is `from_utf8_lossy(inst)`: the
+same for a label that is valid UTF-8 (`reportOf_name_label_utf8`), while two labels that differ
+only in invalid bytes get the SAME name (`C15AuditEx.reportOf_name_label_not_what_rust_shows`). -/
 theorem reportOf_name_label {service : Name} {rs : List RR} {inst : Label} {i : Instance}
     (h : reportOf service rs (inst :: service) = some i) : i.name = inst := by
   obtain ⟨pre, hw, _, _, hn⟩ := reportOf_name h
